@@ -119,6 +119,7 @@ func checkLinks(c ugen.Case) error {
 		return fmt.Errorf("harness: arena: %v", err)
 	}
 	defer a.Close()
+	defer notePreExisting(a)()
 	if ok, why := cooperating(c); ok {
 		ev.NonTrivial(c, why)
 	}
@@ -132,6 +133,20 @@ func checkLinks(c ugen.Case) error {
 	return auditLinks(a, allowPrefixes(c, a), fmt.Sprintf("after Unpack (returned %v)", uerr), nil, 0)
 }
 
+// preExisting: arena root -> links that were under dst before the first Unpack call (name -> target).
+var preExisting = map[string]map[string]string{}
+
+func notePreExisting(a *ugen.Arena) func() {
+	m := map[string]string{}
+	if links, err := walkLinks(a.Dst); err == nil {
+		for _, l := range links {
+			m[l.rel] = l.target
+		}
+	}
+	preExisting[a.R] = m
+	return func() { delete(preExisting, a.R) }
+}
+
 // auditLinks follows every link under dst the way the kernel does. born, when
 // given, maps a link (relative to dst) to the number of the Unpack call that
 // created it: a link left by an earlier call that only now leads outside is the
@@ -143,6 +158,11 @@ func auditLinks(a *ugen.Arena, allow []string, when string, born map[string]int,
 	}
 	ev.LabelIf(len(links) > 0, "links-left-in-dst")
 	for _, l := range links {
+		if t, ok := preExisting[a.R][l.rel]; ok && t == l.target {
+			// in the destination before any Unpack call, and still as it was: not a link Unpack left
+			ev.Label("pre-existing-link-untouched")
+			continue
+		}
 		linkPath := filepath.Join(a.Dst, l.rel)
 		res, _, loop := fsx.Resolve(filepath.Dir(linkPath), l.target)
 		if loop {
@@ -206,6 +226,7 @@ func checkSequence(s ugen.SeqCase) error {
 		return fmt.Errorf("harness: arena: %v", err)
 	}
 	defer a.Close()
+	defer notePreExisting(a)()
 	born := map[string]int{}
 	targets := map[string]string{}
 	var allow []string
